@@ -39,8 +39,20 @@ func isKeyword(name string) bool {
 	return false
 }
 
+// sortedKeys returns the keys in a fixed order, so that what is reported for a
+// context with several offending keys does not change from call to call.
+func (c Context) sortedKeys() []string {
+	keys := make([]string, 0, len(c))
+	for k := range c {
+		keys = append(keys, k)
+	}
+	sort.Strings(keys)
+	return keys
+}
+
 func (c Context) checkForValidIdentifiers() *Error {
-	for k, v := range c {
+	for _, k := range c.sortedKeys() {
+		v := c[k]
 		if !reIdentifiers.MatchString(k) || isKeyword(k) {
 			return &Error{
 				Sender:    "checkForValidIdentifiers",
